@@ -125,8 +125,14 @@ TEXTS = {
     "C09": {
         "text": "Theorems (Properties/C09.v, about the byte-level text functions of the Gallina transcription): split inverts join on pieces "
                 "without the separator; strip_prefix; a `key: value` line splits at the first ': ' and keeps the whole value (names with "
-                "': '); the id of an is_a line is the text before the first blank; parsing the HP:%07d rendering returns the id (every u32). "
-                "PARTIAL: parse(render F) = F at file level is not yet a theorem; it is decided per generated directory by spec_C09 on the "
+                "': '); the id of an is_a line is the text before the first blank; parsing the HP:%07d rendering returns the id (every u32); "
+                "`lines` inverts joining; ONE [Term] STANZA as the JAX file writes it (id, name, any other tags, is_a lines with labels, "
+                "is_obsolete, replaced_by) is read back by term_from_obo as exactly that term and by add_connections as exactly one link per "
+                "is_a line, for every term / names / labels / extra tags without line breaks. "
+                "THE WHOLE hp.obo FILE (C09_read_obo_file): a header chunk followed by any number of such stanzas, joined by one blank line "
+                "each, is read by read_obo_file as: the header's release version; every stanza's term in file order; exactly the is_a links of "
+                "the stanzas, applied after all terms are known (split on a blank line inverts that join: C09_split_inverts_blank_join). "
+                "PARTIAL: the gene / hpoa row parsers have no file-level theorem yet; they are decided per generated directory by spec_C09 on the "
                 "crate's observations (both loaders, the Builder API and the binary format give the same dump, and that dump is exactly the "
                 "one the facts describe, with the C01-C03 statements on everything derived) and by diffing the Gallina transcription of "
                 "hp_obo.rs / parser.rs (run on the SAME file bytes) against the crate.",
@@ -202,11 +208,15 @@ TEXTS = {
         "design_ref": "DESIGN.md §4 C20", "note": NOTE_COMMON + "u32::from_str grammar as documented by core.", "technique": TECH,
     },
     "C12": {
-        "text": "Unbounded theorems (Properties/C12.v, 12 statements, closed under the global context): every group operation "
+        "text": "Unbounded theorems (Properties/C12.v, 16 statements, closed under the global context): every group operation "
                 "(insert, contains, |, &, +, | id, the four constructors) preserves strict ascending order and computes exactly the "
-                "set-theoretic result; set equalities are list equalities. The model is tied to src/term/group.rs by running both on "
-                "thousands of seeded histories/pairs (sizes crossing the inline limit 30) and evaluating the executable statement "
-                "spec_C12 inside Coq on the implementation's observations.",
+                "set-theoretic result; set equalities are list equalities; the ancestor queries of two terms (common_ancestor_ids, "
+                "all_common_ancestor_ids, union_ancestor_ids, all_union_ancestor_ids) are the intersection / union of the two ancestor groups, "
+                "the terms themselves added on both sides in all_common only, and do not depend on the argument order. The model is tied to "
+                "src/term/group.rs by running both on thousands of seeded histories/pairs (sizes crossing the inline limit 30) and to "
+                "src/term/hpoterm.rs by running the eight pair queries (id groups and Combined iterators) on ALL ordered pairs of terms of "
+                "generated ontologies (sub-check C12t), evaluating the executable statements spec_C12 / spec_C12t inside Coq on the "
+                "implementation's observations.",
         "design_ref": "DESIGN.md §4 C12",
         "note": NOTE_COMMON + "std binary_search contract; SmallVec storage not modelled.",
         "technique": TECH,
